@@ -45,7 +45,7 @@ type Pub struct {
 	Expired   bool   `json:"expired,omitempty"` // published with a context whose deadline has already passed
 	UseCtx    bool   `json:"usectx,omitempty"`
 	Any       bool   `json:"any,omitempty"` // published through the static type any (Publish[any])
-	Persist   string `json:"persist"`       // ok reject bad (unencodable event) slow (the append takes 3 ms and succeeds)
+	Persist   string `json:"persist"`       // ok reject bad (unencodable event) slow (the append takes 3 ms and succeeds) timeout (with ShortTO: the store waits for its context to end and returns its error; otherwise like reject)
 }
 
 type Case struct {
@@ -163,11 +163,17 @@ func workload(c *Case, obs eventbus.Observability, ctxCheck func(ctx context.Con
 	appendNo := 0
 	reject := map[int]bool{}
 	slow := map[int]bool{}
+	blocks := map[int]bool{}
 	for _, p := range c.Pubs {
 		if p.Persist != "bad" {
 			appendNo++
-			if p.Persist == "reject" {
+			if p.Persist == "reject" || p.Persist == "timeout" {
 				reject[appendNo] = true
+			}
+			if p.Persist == "timeout" && c.ShortTO {
+				// the store watches its context: the append ends with the
+				// context's error when the persistence timeout expires
+				blocks[appendNo] = true
 			}
 			if p.Persist == "slow" {
 				slow[appendNo] = true
@@ -176,6 +182,9 @@ func workload(c *Case, obs eventbus.Observability, ctxCheck func(ctx context.Con
 	}
 	if base != nil {
 		base.SetHook(func(op string, n, seq int, _ context.Context) storekit.Action {
+			if op == "append" && blocks[n] && !nestedAppend(seq) {
+				return storekit.Action{Block: true}
+			}
 			if op == "append" && reject[n] && !nestedAppend(seq) {
 				return storekit.Action{Err: storekit.ErrInjected}
 			}
